@@ -17,14 +17,28 @@
 (* Files that vanish between the directory listing and opening them are    *)
 (* not source items: they are skipped silently.                            *)
 (***************************************************************************)
-EXTENDS Naturals, Sequences, FiniteSets
+EXTENDS Naturals, Sequences, FiniteSets, TLC
 
 Kinds == {"file", "dir", "symlink"}
 
+\* read() faults addressed by call number: the k-th Read call on the open file answers EIO, once (a
+\* transient fault: later calls work again) or persistently (that call and every later one); the file
+\* system delivers the file whole (one Read per request) or in short pieces (a few bytes / 64 KiB per
+\* Read call, as a slow disk or a network file system does)
+ReadCalls == 1..3
+ReadCallClasses == {"read_k" \o ToString(k) \o "_" \o p \o "_" \o m :
+                      k \in ReadCalls, p \in {"once", "pers"}, m \in {"whole", "short"}}
+\* the item is exchanged on the real file system after it was listed and lstat()ed and before it is
+\* opened for reading: by a symlink to a readable item of the old kind, by a dangling symlink, by a
+\* directory (was a file), by a file (was a directory)
+SwapClasses == {"swap_symlink_same", "swap_symlink_dangling", "swap_dir", "swap_file"}
+
 \* the item exists but cannot be read: error on open / lstat / read / readdir, or it is
 \* not what lstat said it was once it is open (type change), or a named target is missing
+\* (readdir_partial: the listing breaks in the middle, some names are returned together with the error)
 FailClasses == {"open_err", "lstat_err", "openread_err", "read_eio", "read_eio0", "fstat_err",
-                "to_symlink", "to_dir", "to_file", "readdir_err", "tonode_err", "target_missing"}
+                "to_symlink", "to_dir", "to_file", "readdir_err", "readdir_partial", "tonode_err", "target_missing"}
+               \cup ReadCallClasses \cup SwapClasses
 \* the item was listed by readdir but is gone (ENOENT) when restic looks at it: not a source item
 VanishClasses == {"vanish_open", "vanish_lstat"}
 \* lstat succeeded, the item is gone when it is opened for reading: the statement does not say
@@ -35,8 +49,10 @@ AllClasses == FailClasses \cup VanishClasses \cup OpenClasses \cup {"none"}
 
 FaultsOf(kind, isTarget) ==
   {"none", "open_err", "lstat_err", "tonode_err", "vanish_open", "vanish_lstat"}
-  \cup (IF kind = "file" THEN {"openread_err", "read_eio", "read_eio0", "fstat_err", "to_symlink", "to_dir", "vanish_late"} ELSE {})
-  \cup (IF kind = "dir" THEN {"openread_err", "readdir_err", "to_file", "vanish_late"} ELSE {})
+  \cup (IF kind = "file" THEN {"openread_err", "read_eio", "read_eio0", "fstat_err", "to_symlink", "to_dir", "vanish_late"}
+                            \cup ReadCallClasses \cup {"swap_symlink_same", "swap_symlink_dangling", "swap_dir"} ELSE {})
+  \cup (IF kind = "dir" THEN {"openread_err", "readdir_err", "readdir_partial", "to_file", "vanish_late",
+                             "swap_symlink_same", "swap_symlink_dangling", "swap_file"} ELSE {})
   \cup (IF isTarget THEN {"target_missing"} ELSE {})
 
 \* item i or one of its ancestors got an error answer: i cannot be part of the snapshot
@@ -60,12 +76,19 @@ StatusOK(items, status) ==
 SetOf(s) == {s[k] : k \in DOMAIN s}
 
 \* one recorded run of the real backup command
+\*  r.mode     "inproc-noparent" | "inproc-parent" | "inproc-skip" (--skip-if-unchanged on top of a parent
+\*             snapshot taken from the same source under the same faults) | "binary"
 \*  r.items    sequence of [parent, kind, fault, delivered]
 \*  r.status   exit status (binary) / status main() derives from the returned error (in-process)
 \*  r.saved    exactly one new snapshot exists after the run
+\*  r.skipped  --skip-if-unchanged was given and the run created no snapshot (its tree equals the parent's);
+\*             insnap/extra then describe the parent snapshot
 \*  r.insnap   items found in that snapshot (by path), r.extra: number of snapshot paths that are no item
+Modes == {"inproc-noparent", "inproc-parent", "inproc-skip", "binary"}
+
 RecOK(r) ==
-  /\ r.saved
+  /\ r.mode \in Modes
+  /\ IF r.skipped THEN r.mode = "inproc-skip" /\ ~r.saved ELSE r.saved
   /\ StatusOK(r.items, r.status)
   /\ SetOf(r.insnap) = ReadableItems(r.items)
   /\ r.extra = 0
